@@ -197,6 +197,14 @@ def check_op(name: str, case: dict) -> Optional[Tuple[str, str]]:
                 sc = max(1.0, abs(fd1), abs(fd2))
                 if h < 1e-4 and fd1 == 0.0 and fd2 == 0.0:
                     continue      # below the resolution of a float32 accumulation: decide at the float32 step
+                if kinky and abs(fd1 - fd2) <= rtol * sc:
+                    # a point that sits ON an interpolation kink (lattice points mapped next to lattice points by a
+                    # near-identity stack) gives symmetric differences that agree for every h - the average of the two
+                    # one-sided slopes - while autograd returns one of them: compare the one-sided slopes directly
+                    f0 = at(0.0)
+                    sp, sm = (at(h / 4) - f0) / (h / 4), (f0 - at(-h / 4)) / (h / 4)
+                    if abs(sp - sm) > 0.5 * ctol * sc:
+                        continue                                 # kink inside the stencil: inconclusive at this step
                 if abs(fd1 - fd2) <= rtol * sc:
                     fds.append((16 * fd2 - fd1) / 15)          # Richardson: O(h^4)
                     tols.append((h, ctol))
